@@ -449,3 +449,12 @@ Proof.
   pose proof Hwf as Hwf'. apply wf_pkt_parts in Hwf' as (_ & _ & _ & _ & _ & Wqn & _).
   eapply encode_sized_within; eauto. eapply encode_sized_of_t; eauto.
 Qed.
+
+(* every pointer in any encoding (size-limited or not) of a well-formed message is
+   backwards and below 0x4000: the strict decoder, which follows every name of the
+   message and rejects any other pointer, accepts the octets *)
+Lemma encoding_strictly_decodable m size e t :
+  wf_pkt m = true -> encode_sized_t m size = Ok (e, t) -> exists m', strict_decode e = Some m'.
+Proof.
+  intros Hwf H. destruct (strict_decode_sized m size e t Hwf H) as (ac & nc & dc & Hs & _). eauto.
+Qed.
